@@ -145,6 +145,36 @@ def lookup_methods(prog):
     return ci, out
 
 
+def search_keys_exact(ctx):
+    """every class search of the binned law (single table and per-point tables alike) is made with the absolute load itself:
+    abs(...) of a load, through value-neutral wrappers and single-definition locals - no offset, tolerance or scaling on the key.
+    A shifted key moves loads near a class edge into the neighbouring class, by an amount that is absolute in load units."""
+    from ..astutil import inline_single_defs
+    prog = ctx.prog
+    ci, methods = lookup_methods(prog)
+    n = 0
+    for fi in methods:
+        for c, seq, key, side in _searches(fi.node):
+            if key is None:
+                raise AnalysisError("%s: class search without a key" % fi.key)
+            k = _strip_wrappers(inline_single_defs(fi.node, key))
+            for _ in range(4):
+                if isinstance(k, ast.Subscript) or (isinstance(k, ast.Attribute) and k.attr in ("iloc", "values", "iat")):
+                    k = _strip_wrappers(k.value)                  # the first point's entry of the absolute loads
+            n += 1
+            if isinstance(k, ast.Call) and call_name(k) in ("abs", "np.abs", "numpy.abs", "np.absolute", "np.fabs"):
+                ctx.holds(fi, c, "%s: class searched with the absolute load (%s)" % (fi.name, norm_text(key)[:50]))
+            elif isinstance(k, (ast.BinOp, ast.UnaryOp)) or (isinstance(k, ast.Call) and call_name(k) in
+                                                              ("np.round", "round", "np.around", "np.nextafter", "np.floor", "np.ceil")):
+                ctx.violated(fi, c, "%s: the class is searched with %s, not with the absolute load itself: loads within that "
+                             "offset of a class edge are assigned to the neighbouring class" % (fi.name, norm_text(k)[:80]),
+                             text="search key %s %s" % (fi.name, norm_text(k)[:60]))
+            else:
+                raise AnalysisError("%s: search key %s not understood" % (fi.key, norm_text(k)[:80]))
+    if n < 4:
+        raise AnalysisError("fewer than 4 class searches found in the binned law")
+
+
 def constructor_facts(ctx, ci):
     """-> per constructor: table -> dict(grid_col, law_cols{col: method}, base, nclass_factor, grid_expr)"""
     prog = ctx.prog
